@@ -559,6 +559,55 @@ def run_noniter(case):
   return R(None, True, x)
 
 
+# ------------------------------------------------ predicates that answer with truthiness, not with a bool
+PREDS = OrderedDict([
+  ("mod3", lambda v: v % 3),            # 0 / 1 / 2
+  ("and6", lambda v: v & 6),            # 0 / 2 / 4 / 6
+  ("half", lambda v: v // 2),           # 0 for 0 and 1, a count otherwise
+  ("list", lambda v: [v] * (v % 2)),    # [] / [v]
+  ("str", lambda v: "x" * (v % 3)),     # "" / "x" / "xx"
+  ("none", lambda v: None if v % 2 else v),
+  ("float", lambda v: 0.0 if v % 4 == 0 else 0.5),
+  ("bool", lambda v: v % 2 == 1),
+])
+
+
+def gen_preds(run):
+  for p in PREDS:
+    for n in range(0, 10):
+      for route in ("stream", "copy", "hub-use", "map-filter", "filter-twice", "periodic-limit"):
+        yield (p, n, route)
+
+
+def run_preds(case):
+  """filter keeps exactly the items whose predicate value is *truthy* (the builtin's meaning); inputs are finite
+  (or cut by limit before the filter), so a wrong filter cannot make the case endless."""
+  pn, n, route = case
+  p = PREDS[pn]
+  L = list(range(n))
+  if route == "stream":
+    got, exp = list(Stream(L).filter(p)), list(filter(p, L))
+  elif route == "copy":
+    s = Stream(L); c = s.copy()
+    got, exp = [list(c.filter(p)), list(s)], [list(filter(p, L)), L]
+  elif route == "hub-use":
+    h = thub(Stream(L), 2)
+    got, exp = [list(Stream(h).filter(p)), list(Stream(h))], [list(filter(p, L)), L]
+  elif route == "map-filter":
+    got, exp = list(Stream(L).map(lambda v: v + 1).filter(p)), list(filter(p, [v + 1 for v in L]))
+  elif route == "filter-twice":
+    q = PREDS["mod3"]
+    got, exp = list(Stream(L).filter(p).filter(q)), list(filter(q, filter(p, L)))
+  else:
+    if not L:
+      return R(None, False, route)
+    got, exp = list(Stream(*L).limit(2 * n + 1).filter(p)), list(filter(p, (L * 3)[:2 * n + 1]))
+  if got != exp:
+    return bad("filter:truthiness", "filter(%s) keeps the items whose predicate value is truthy (route %s)" % (pn, route),
+               repr(exp), repr(got), True)
+  return R(None, True, (pn, route))
+
+
 # ------------------------------------------------ tee of every kind of input
 class _Countdown(object):
   """A hand-written iterator (has __next__, is its own iter)."""
@@ -889,6 +938,8 @@ KINDS = OrderedDict([
   ("hist", Kind(None, run_hist, chunk=16, timeout=30,
                 rule="one case = one state (history); every enabled letter applied from it, then all handles drained")),
   ("noniter", Kind(gen_noniter, run_noniter, rule="thub(x, n) is x for non-iterables")),
+  ("predicates", Kind(gen_preds, run_preds, chunk=40,
+                      rule="filter with 8 predicates answering 0/ints/lists/strings/None/floats/bools x finite inputs of 0..9 items x 6 routes (stream, copy, hub use, after map, twice, periodic cut by limit)")),
   ("tee-inputs", Kind(gen_tee_inputs, run_tee_inputs, chunk=8,
                       rule="tee of every kind of iterator (19 input kinds) x n 0..3 x every order of single-item consumption")),
   ("hub-life", Kind(gen_hub_life, run_hub_life, chunk=8,
@@ -903,6 +954,10 @@ KINDS = OrderedDict([
 
 
 def main(run):
+  if run.viols:
+    # the verdict is already VIOLATION; a broken filter / map can make histories endless (30 s time-out each)
+    run.caps.append("history search skipped: a generated kind already reported a violation")
+    return
   du, dm = run.pick(3, 4), run.pick(4, 5)
   states = trans = 0
   levels = {}
